@@ -4,19 +4,28 @@ import random
 from bumble import core, crypto, hci, smp
 from bumble.crypto import builtin as cb
 from bumble.crypto import cryptography as cc
-from pyvc.contracts import (NATIVE_UF, Any, Bool, Bytes, BytesN, Callback, Inst, Int, IntRange, OneOf, Opt, contract, iff,
+from pyvc import ext_c14  # noqa: F401  (engine extensions: XOR normal form, ...)
+from pyvc.contracts import (NATIVE_UF, Any, Bool, Bytes, BytesN, Callback, Const, Inst, Int, IntRange, OneOf, Opt, contract, iff,
                             implies, lemma, model, at, ite, ufb)
-from spec.crypto import (AES, CMAC, P256_A, P256_B, P256_P, shift_spec, ah_be, bxor, c1_be, cmac_rfc, dbl, e_be, f4_be, f5_be, f6_be, g2_be, h6_be,
+from spec.crypto import (AES, CMAC, P256_A, P256_B, P256_P, shift_spec, ah_be, bxor, c1_be, cbc_chain, cmac_rfc, cmac_rfc_any, dbl, e_be, f4_be, f5_be, f6_be, g2_be, h6_be,
                          h7_be, on_p256, rev, s1_be)
 
 ENVIRONMENT = [
     'AES-128 (FIPS-197) and, for the library back end, AES-CMAC are uninterpreted functions: that the `cryptography` '
-    'C library and the built-in table-driven _AES compute FIPS-197 AES is NOT proved (external code / table arithmetic '
-    'outside SMT reach); a seeded differential run of both back ends is reported under `bounded`',
-    'P-256 group arithmetic (_JacobianPoint double/add/mul, to_affine, ECDH symmetry, public-key derivation) is not proved: '
-    '256-bit non-linear arithmetic; only the on-curve gate of EccKey.dh is; the differential run covers the rest (bounded)',
-    'built-in AES-CMAC is proved equal to RFC 4493 for every message content at each enumerated message length '
-    '(bounded in length, unbounded in content); the lengths used by the Security Manager (4, 16, 32, 53, 65, 80) are among them',
+    'C library and the built-in table-driven _AES (key schedule, S-box rounds) compute FIPS-197 AES is NOT proved (external code / table '
+    'arithmetic outside SMT reach); _AES.__init__/_AES.encrypt and the library e/aes_cmac enter as trusted contracts; a seeded native '
+    'differential run of both back ends against each other and against the oracle is reported under `bounded`',
+    'P-256 group arithmetic (_JacobianPoint double/add, to_affine, ECDH symmetry, public-key derivation, agreement of the two EccKey classes) '
+    'is not proved: 256-bit non-linear arithmetic; proved are only the on-curve gate of the built-in EccKey.dh (with _EllipticCurve.'
+    'ecdh_shared_secret opaque) and the termination of _JacobianPoint.__mul__; the differential run covers the rest (bounded)',
+    'that the library back end rejects an off-curve point is a property of the `cryptography` package (EllipticCurvePublicNumbers.public_key): '
+    'observed in the differential run only',
+    'built-in AES-CMAC == RFC 4493 is proved for every message length up to the 2**52 bytes _CMAC accepts and every content, for the one '
+    'call pattern aes_cmac uses (_CMAC(key, msg).digest(): one update on a fresh object); incremental update()/digest() sequences '
+    '(update after a partial block, update_after_digest) are not covered',
+    'the solver sees the XOR of two symbolic bytes as a commutative uninterpreted function; associativity, cancellation and constants are '
+    'normalised by the VC generator (pyvc/ext_c14.py) -- part of the trusted checker',
+    'secrets.token_bytes returns arbitrary bytes of the requested length (model of the VC generator)',
     '"does not resolve under an unrelated key" is false as a universal statement (24-bit hash) and is not claimed',
 ]
 
@@ -151,9 +160,11 @@ lemma('toolbox_xor_reverse', lemma_xor_reverse, params=dict(x=BytesN(16), y=Byte
 
 
 def lemma_prand():
-    p = crypto.generate_prand()
-    assert len(p) == 3
-    assert p[2] // 64 == 1  # two most significant bits 0b01: resolvable private address
+    # (repeated: the native replay of a counter-model draws real random bytes)
+    for _ in range(16):
+        p = crypto.generate_prand()
+        assert len(p) == 3
+        assert p[2] // 64 == 1  # two most significant bits 0b01: resolvable private address
 
 
 lemma('toolbox_generate_prand', lemma_prand, params={}, **TOOLBOX)
@@ -224,19 +235,136 @@ BUILTIN['inline'] = [p for p in BUILTIN['inline'] if not p.endswith('_shift_byte
 BUILTIN['uses'] = BUILTIN['uses'] + ['bumble.crypto.builtin:_shift_bytes@spec']
 
 
+# --- _CBC.encrypt: CBC chaining over a whole number of blocks (block loop: invariant over cbc_chain)
+model('bumble.crypto.builtin:_CBC', fields=dict(_last_cipher_block=BytesN(16), _aes=Inst('bumble.crypto.builtin:_AES')))
+
+
+def cbc_encrypt_post(self, plaintext, res, old):
+    k, iv = self._aes.k, old.self._last_cipher_block
+    out = [len(res) == len(plaintext), self._last_cipher_block == cbc_chain(k, iv, plaintext)]
+    if len(plaintext) >= 16:
+        # the last ciphertext block is the chaining value after all blocks ...
+        out.append(res[len(res) - 16 :] == cbc_chain(k, iv, plaintext))
+    if len(plaintext) >= 32:
+        # ... and the one before it the chaining value after all blocks but the last
+        out.append(res[len(res) - 32 : len(res) - 16] == cbc_chain(k, iv, plaintext[: len(plaintext) - 16]))
+    return out
+
+
+def cbc_encrypt_inv(self, plaintext, cipher_text, _it, old):
+    k, iv = self._aes.k, old.self._last_cipher_block
+    out = [
+        0 <= _it,
+        _it % 16 == 0,
+        _it <= len(plaintext),
+        len(cipher_text) == _it,
+        self._last_cipher_block == cbc_chain(k, iv, plaintext[:_it]),
+    ]
+    if _it >= 16:
+        out.append(cipher_text[len(cipher_text) - 16 :] == cbc_chain(k, iv, plaintext[:_it]))
+    if _it >= 32:
+        out.append(cipher_text[len(cipher_text) - 32 : len(cipher_text) - 16] == cbc_chain(k, iv, plaintext[: _it - 16]))
+    return out
+
+
+contract(
+    'bumble.crypto.builtin:_CBC.encrypt',
+    prop='C14',
+    params=dict(self=Inst('bumble.crypto.builtin:_CBC'), plaintext=Bytes),
+    requires=lambda self, plaintext: [len(self._aes.k) == 16, len(plaintext) % 16 == 0],
+    returns=Bytes,
+    ensures=cbc_encrypt_post,
+    modifies=['self._last_cipher_block'],
+    invariants={0: cbc_encrypt_inv},
+    decreases={0: lambda plaintext, _it: len(plaintext) - _it},
+    inline=['bumble.crypto.builtin:_xor'],
+    uses=['bumble.crypto.builtin:_AES.encrypt@spec'],
+    note='any number of blocks: after the loop the chaining value is cbc_chain(key, iv, plaintext) (RFC 4493 2.4 step 6)',
+)
+
+# --- _CMAC._update: one call of the CBC layer on block-aligned data; keeps the last ciphertext block and
+#     the last plaintext block XOR the ciphertext block before it (what digest() needs for a complete last block)
+model(
+    'bumble.crypto.builtin:_CMAC',
+    fields=dict(_block_size=Const(16), _cbc=Inst('bumble.crypto.builtin:_CBC'), _last_ct=BytesN(16), _last_pt=Any),
+)
+
+
+def update_last_ct(self, data_block, old):
+    if len(data_block) == 0:
+        return old.self._last_ct
+    return cbc_chain(self._cbc._aes.k, old.self._last_ct, data_block)
+
+
+def update_last_pt(self, data_block, old):
+    if len(data_block) == 0:
+        return old.self._last_pt
+    return bxor(cbc_chain(self._cbc._aes.k, old.self._last_ct, data_block[: len(data_block) - 16]), data_block[len(data_block) - 16 :])
+
+
+contract(
+    'bumble.crypto.builtin:_CMAC._update',
+    prop='C14',
+    params=dict(self=Inst('bumble.crypto.builtin:_CMAC'), data_block=Bytes),
+    # representation invariant of _CMAC: _last_ct is the chaining value of the CBC layer
+    requires=lambda self, data_block: [len(self._cbc._aes.k) == 16, len(data_block) % 16 == 0, self._last_ct == self._cbc._last_cipher_block],
+    assigns={'self._last_ct': update_last_ct, 'self._last_pt': update_last_pt},
+    ensures=lambda self: [self._cbc._last_cipher_block == self._last_ct],
+    modifies=['self._last_ct', 'self._last_pt', 'self._cbc._last_cipher_block'],
+    uses=['bumble.crypto.builtin:_CBC.encrypt'],
+    inline=['bumble.crypto.builtin:_xor'],
+    note='block-aligned data of any length',
+)
+
+BUILTIN_ANY = dict(BUILTIN)
+BUILTIN_ANY['inline'] = [p for p in BUILTIN['inline'] if p != '_CBC.*'] + ['_CBC.__init__']
+BUILTIN_ANY['uses'] = BUILTIN['uses'] + ['bumble.crypto.builtin:_CMAC._update']
+
+
+def lemma_builtin_cmac_any(head, tail, k):
+    # every message is head || tail with head a whole number of blocks and 0 <= len(tail) <= 15
+    m = head + tail
+    assert cb.aes_cmac(m, k) == cmac_rfc_any(k, m)
+
+
+lemma(
+    'builtin_cmac_any_length',
+    lemma_builtin_cmac_any,
+    params=dict(head=Bytes, tail=OneOf(*[BytesN(r) for r in range(16)]), k=BytesN(16)),
+    # _CMAC refuses more than 2**48 blocks (InvalidArgumentError in digest)
+    requires=lambda head, tail: [len(head) % 16 == 0, len(head) + len(tail) <= 16 * 2**48],
+    note='built-in AES-CMAC == RFC 4493 for every message length (case split on len mod 16; the block loop is '
+    'covered by the loop invariant of _CBC.encrypt) and every content, AES-128 uninterpreted',
+    **BUILTIN_ANY,
+)
+
+
+def lemma_cbc_chain_unfold(k, iv, a, b, c):
+    # the recursive definition of cbc_chain, spelled out for 0, 1, 2 and 3 blocks (sanity of the definition)
+    assert cbc_chain(k, iv, b'') == iv
+    assert cbc_chain(k, iv, a) == AES(k, bxor(iv, a))
+    assert cbc_chain(k, iv, a + b) == AES(k, bxor(AES(k, bxor(iv, a)), b))
+    assert cbc_chain(k, iv, a + b + c) == AES(k, bxor(AES(k, bxor(AES(k, bxor(iv, a)), b)), c))
+
+
+lemma('spec_cbc_chain_unfolds', lemma_cbc_chain_unfold, prop='C14', params=dict(k=BytesN(16), iv=BytesN(16), a=BytesN(16), b=BytesN(16), c=BytesN(16)))
+
+
 def lemma_builtin_cmac(m, k):
     assert cb.aes_cmac(m, k) == cmac_rfc(k, m)
+    # the two forms of the specification (loop of RFC 4493 unrolled / recursive cbc_chain) agree at this length
+    assert cmac_rfc(k, m) == cmac_rfc_any(k, m)
 
 
-# every length through two full blocks + the block boundaries around 3 and 4 blocks + the lengths the
-# Security Manager uses: h6 (4), h7 (16), f5 salt step (32), f5 (53), f4/f6 (65), g2 (80)
-CMAC_LENGTHS = sorted(set(range(0, 35)) | {47, 48, 49, 53, 63, 64, 65, 66, 80})
+# bounded cross-check of the general lemma against the *unrolled* RFC 4493 algorithm at the block
+# boundaries (never counted as a proof for other lengths)
+CMAC_LENGTHS = [0, 1, 15, 16, 17, 31, 32, 33]
 for _n in CMAC_LENGTHS:
     lemma(
         f'builtin_cmac_len{_n:02d}',
         lemma_builtin_cmac,
         params=dict(m=BytesN(_n), k=BytesN(16)),
-        note=f'message length {_n}: all contents, all keys (bounded in length: lengths {CMAC_LENGTHS[0]}..34 and the block boundaries up to 80 are enumerated)',
+        note=f'BOUNDED stand-in (message length {_n} only, all contents and keys): built-in aes_cmac == the unrolled loop of RFC 4493 == the recursive form used by builtin_cmac_any_length',
         **BUILTIN,
     )
 
@@ -244,7 +372,12 @@ for _n in CMAC_LENGTHS:
 # ---------------------------------------------------------------------------
 # ECDH: a peer public key that is not a point of P-256 yields no shared secret (built-in back end)
 # ---------------------------------------------------------------------------
-model('bumble.crypto.builtin:_EllipticCurve', fields=dict(p=Int, a=Int, b=Int, n=Int, g_x=Int, g_y=Int))
+P256 = cb._EllipticCurve.SECP256R1()
+assert (P256.p, P256.a, P256.b) == (P256_P, P256_A, P256_B)  # the curve constants of the code are those of FIPS 186-4 D.1.2.3
+model(
+    'bumble.crypto.builtin:_EllipticCurve',
+    fields=dict(p=Const(P256_P), a=Const(P256_A), b=Const(P256_B), n=Const(P256.n), g_x=Const(P256.g_x), g_y=Const(P256.g_y)),
+)
 model('bumble.crypto.builtin:_EllipticCurve.PrivateKey', fields=dict(key=Int, curve=Inst('bumble.crypto.builtin:_EllipticCurve')))
 model('bumble.crypto.builtin:EccKey', fields=dict(private_key=Inst('bumble.crypto.builtin:_EllipticCurve.PrivateKey')))
 contract(
@@ -260,23 +393,54 @@ contract(
 )
 
 
-def is_p256(c):
-    return c.p == P256_P and c.a == P256_A and c.b == P256_B
+def peer_point_on_curve(public_key_x, public_key_y):
+    return on_p256(int.from_bytes(public_key_x, 'big'), int.from_bytes(public_key_y, 'big'))
 
 
 contract(
     'bumble.crypto.builtin:EccKey.dh',
     prop='C14',
     params=dict(self=Inst('bumble.crypto.builtin:EccKey'), public_key_x=BytesN(32), public_key_y=BytesN(32)),
-    requires=lambda self: is_p256(self.private_key.curve),
-    # from the statement: a shared secret is produced only for a point of the curve
-    ensures=lambda public_key_x, public_key_y, res: [on_p256(int.from_bytes(public_key_x, 'big'), int.from_bytes(public_key_y, 'big')), len(res) == 32],
+    # from the statement: a shared secret is produced only for a point of the curve ...
+    ensures=lambda public_key_x, public_key_y, res: [peer_point_on_curve(public_key_x, public_key_y), len(res) == 32],
     ensures_names=['secret-only-for-on-curve-point', 'secret-is-32-bytes'],
-    raises={ValueError: lambda public_key_x, public_key_y: [not on_p256(int.from_bytes(public_key_x, 'big'), int.from_bytes(public_key_y, 'big'))], core.InvalidPacketError: None},
+    # ... and a point that is not on the curve is rejected the way the library back end rejects it
+    # (InvalidPacketError is a subclass of ValueError: listed first so that it is matched first)
+    raises={
+        core.InvalidPacketError: None,  # point at infinity: also a rejection, whatever the point was
+        ValueError: lambda public_key_x, public_key_y: [not peer_point_on_curve(public_key_x, public_key_y)],
+    },
     modifies=[],
     uses=['bumble.crypto.builtin:_EllipticCurve.ecdh_shared_secret@opaque'],
-    inline=['_Point.__init__'],
-    note='ValueError is what the library back end raises for an invalid point (EllipticCurvePublicNumbers.public_key)',
+    inline=['_Point.__init__', '_EllipticCurve.is_on_curve'],
+    note='the key is on SECP256R1, the only curve EccKey.generate / from_private_key_bytes construct (class model: constants of '
+    '_EllipticCurve.SECP256R1()); ValueError is what the library back end raises for an invalid point '
+    '(EllipticCurvePublicNumbers.public_key)',
+)
+
+
+# --- scalar multiplication: termination of the double-and-add loop only (no arithmetic claim)
+model('bumble.crypto.builtin:_JacobianPoint', fields=dict(curve=Inst('bumble.crypto.builtin:_EllipticCurve'), x=Int, y=Int, z=Int))
+for _m in ('__add__', 'double'):
+    contract(
+        f'bumble.crypto.builtin:_JacobianPoint.{_m}',
+        key=f'bumble.crypto.builtin:_JacobianPoint.{_m}@opaque',
+        params=dict(self=Inst('bumble.crypto.builtin:_JacobianPoint'), other=Inst('bumble.crypto.builtin:_JacobianPoint')) if _m == '__add__' else dict(self=Inst('bumble.crypto.builtin:_JacobianPoint')),
+        returns=Inst('bumble.crypto.builtin:_JacobianPoint'),
+        modifies=[],
+        trusted=True,
+        note='group law: opaque (returns some point, total, no side effect); not proved -- 256-bit non-linear arithmetic',
+    )
+contract(
+    'bumble.crypto.builtin:_JacobianPoint.__mul__',
+    prop='C14',
+    params=dict(self=Inst('bumble.crypto.builtin:_JacobianPoint'), k=Int),
+    invariants={0: lambda k: True},
+    decreases={0: lambda k: k},
+    modifies=[],
+    uses=['bumble.crypto.builtin:_JacobianPoint.__add__@opaque', 'bumble.crypto.builtin:_JacobianPoint.double@opaque'],
+    inline=['_JacobianPoint.point_at_infinity', '_JacobianPoint.__init__'],
+    note='termination of double-and-add for every scalar (variant k); the value computed is NOT specified',
 )
 
 
@@ -325,9 +489,21 @@ lemma('private_address_kinds', lemma_nrpa, prop='C14', params={}, inline=['bumbl
 
 
 # ---------------------------------------------------------------------------
-# bounded stand-in (never counted as proved): seeded differential run of the two back ends
+# BOUNDED stand-in (never counted as proved): seeded native run of the two back ends against each other and
+# against the oracle of spec/crypto.py (with the real AES behind the uninterpreted functions).  This is the
+# only check in which the `cryptography` library, the table-driven _AES and the P-256 group arithmetic take
+# part: they are outside the reach of the contracts (external C code / S-box tables / 256-bit non-linear
+# arithmetic).  quick tier: a smoke run; thorough tier: the run of DESIGN.md (N = 2000).
 # ---------------------------------------------------------------------------
+RFC4493_KEY = bytes.fromhex('2b7e151628aed2a6abf7158809cf4f3c')
+RFC4493_MSG = bytes.fromhex('6bc1bee22e409f96e93d7e117393172aae2d8a571e03ac9c9eb76fac45af8e5130c81c46a35ce411e5fbc1191a0a52eff69f2445df4f9b17ad2b417be66c3710')
+RFC4493_MACS = {0: 'bb1d6929e95937287fa37d129b756746', 16: '070a16b46b4d4144f79bdd9dd04a287c', 40: 'dfa66747de9ae63030ca32611497c827', 64: '51f0bebf7e3b9d92fc49741779363cfe'}
+P256_N = P256.n
+
+
 def differential(top, out, tier, seed):
+    from unittest import mock
+
     n = 40 if tier == 'quick' else 2000
     rnd = random.Random(1000 + seed)
     bad = []
@@ -335,43 +511,87 @@ def differential(top, out, tier, seed):
     def rb(k):
         return bytes(rnd.randrange(256) for _ in range(k))
 
+    # RFC 4493 test vectors: both back ends and both forms of the oracle
+    for ln, mac in RFC4493_MACS.items():
+        m = RFC4493_MSG[:ln]
+        got = {'builtin': cb.aes_cmac(m, RFC4493_KEY), 'cryptography': cc.aes_cmac(m, RFC4493_KEY), 'cmac_rfc': cmac_rfc(RFC4493_KEY, m), 'cmac_rfc_any': cmac_rfc_any(RFC4493_KEY, m)}
+        for who, v in got.items():
+            if v.hex() != mac:
+                bad.append(('rfc4493 vector', who, ln))
+    lengths = list(range(0, 81)) + [95, 96, 97, 127, 128, 129, 255, 256, 257]
     for i in range(n):
         k, d = rb(16), rb(16)
-        if cb.e(k, d) != cc.e(k, d):
+        if not (cb.e(k, d) == cc.e(k, d) == rev(e_be(rev(k), rev(d)))):
             bad.append(('e', k.hex(), d.hex()))
-        m = rb(i % 81)
-        if cb.aes_cmac(m, k) != cc.aes_cmac(m, k):
+        m = rb(lengths[i % len(lengths)])
+        if not (cb.aes_cmac(m, k) == cc.aes_cmac(m, k) == cmac_rfc_any(k, m)):
             bad.append(('aes_cmac', k.hex(), m.hex()))
+    # every Security Manager function under either back end (module globals patched as tests/smp_test.py does)
+    n_sm = 4 if tier == 'quick' else 200
+    for i in range(n_sm):
+        a = dict(k=rb(16), r=rb(16), preq=rb(7), pres=rb(7), iat=rnd.randrange(2), rat=rnd.randrange(2), ia=rb(6), ra=rb(6), u=rb(32), v=rb(32), x=rb(16), z=rb(1), w=rb(32), n1=rb(16), n2=rb(16), a1=rb(7), a2=rb(7), io=rb(3), kid=rb(4), r3=rb(3))
+        res = []
+        for backend in (cb, cc):
+            with mock.patch.object(crypto, 'e', backend.e), mock.patch.object(crypto, 'aes_cmac', backend.aes_cmac):
+                res.append((
+                    crypto.ah(a['k'], a['r3']), crypto.c1(a['k'], a['r'], a['preq'], a['pres'], a['iat'], a['rat'], a['ia'], a['ra']), crypto.s1(a['k'], a['r'], a['x']),
+                    crypto.f4(a['u'], a['v'], a['x'], a['z']), crypto.f5(a['w'], a['n1'], a['n2'], a['a1'], a['a2']), crypto.f6(a['k'], a['n1'], a['n2'], a['r'], a['io'], a['a1'], a['a2']),
+                    crypto.g2(a['u'], a['v'], a['x'], a['r']), crypto.h6(a['k'], a['kid']), crypto.h7(a['r'], a['k']),
+                ))
+        if res[0] != res[1]:
+            bad.append(('security manager function', {k_: (v_.hex() if isinstance(v_, bytes) else v_) for k_, v_ in a.items()}))
+    # ECC: public key derivation, ECDH symmetry, boundary scalars, invalid points
     n_ecc = 4 if tier == 'quick' else 60
-    for i in range(n_ecc):
-        d1, d2 = rb(32), rb(32)
-        try:
-            a1, a2 = cb.EccKey.from_private_key_bytes(d1), cc.EccKey.from_private_key_bytes(d1)
-            b1, b2 = cb.EccKey.from_private_key_bytes(d2), cc.EccKey.from_private_key_bytes(d2)
-        except ValueError:
+    scalars = [(1).to_bytes(32, 'big'), (2).to_bytes(32, 'big'), (P256_N - 1).to_bytes(32, 'big'), (P256_N - 2).to_bytes(32, 'big')]
+    pairs = [(scalars[0], scalars[2]), (scalars[1], scalars[3])] + [(rb(32), rb(32)) for _ in range(n_ecc)]
+    for d1, d2 in pairs:
+        if not (0 < int.from_bytes(d1, 'big') < P256_N and 0 < int.from_bytes(d2, 'big') < P256_N):
             continue
-        if (a1.x, a1.y) != (a2.x, a2.y):
-            bad.append(('public key', d1.hex()))
-        s = [a1.dh(b1.x, b1.y), a2.dh(b2.x, b2.y), b1.dh(a1.x, a1.y), b2.dh(a2.x, a2.y)]
-        if len(set(s)) != 1:
-            bad.append(('ecdh', d1.hex(), d2.hex()))
+        a1, a2 = cb.EccKey.from_private_key_bytes(d1), cc.EccKey.from_private_key_bytes(d1)
+        b1, b2 = cb.EccKey.from_private_key_bytes(d2), cc.EccKey.from_private_key_bytes(d2)
+        if (a1.x, a1.y) != (a2.x, a2.y) or (b1.x, b1.y) != (b2.x, b2.y):
+            bad.append(('public key', d1.hex(), d2.hex()))
+        if not on_p256(int.from_bytes(a1.x, 'big'), int.from_bytes(a1.y, 'big')):
+            bad.append(('public key not on the curve', d1.hex()))
+        sec = []
+        for key, peer in ((a1, b1), (a2, b2), (b1, a1), (b2, a2)):
+            try:
+                sec.append(key.dh(peer.x, peer.y))
+            except ValueError as e:  # the point at infinity (d1 * d2 = 0 mod n): both must refuse
+                sec.append(type(e).__name__ if not isinstance(e, core.InvalidPacketError) else 'ValueError')
+        if len(set(sec)) != 1:
+            bad.append(('ecdh', d1.hex(), d2.hex(), [s_ if isinstance(s_, str) else s_.hex() for s_ in sec]))
+    n_bad_pts = 6 if tier == 'quick' else 200
+    for i in range(n_bad_pts):
+        d1 = (rnd.randrange(1, P256_N)).to_bytes(32, 'big')
+        px, py = ((0, 0), (5, 7), (P256.g_x, P256.g_y ^ 1))[i] if i < 3 else (rnd.randrange(1 << 256), rnd.randrange(1 << 256))
+        outcome = []
+        for backend in (cb, cc):
+            try:
+                outcome.append(backend.EccKey.from_private_key_bytes(d1).dh(px.to_bytes(32, 'big'), py.to_bytes(32, 'big')).hex())
+            except ValueError:
+                outcome.append('ValueError')
+        if outcome[0] != outcome[1] or (not on_p256(px, py) and outcome[0] != 'ValueError'):
+            bad.append(('invalid public key', hex(px), hex(py), outcome))
     out['kind'] = 'bounded'
     out['paths'] = 0
     out['sha'] = ''
     out['bounded'] = [
         {
-            'what': 'differential run built-in vs cryptography back end: e, aes_cmac (message lengths 0..80), public key derivation, ECDH symmetry',
-            'bound': f'{n} seeded random inputs for e/aes_cmac, {n_ecc} key pairs for ECC (seed {1000 + seed})',
-            'disagreements': bad[:5],
+            'what': 'native differential run, built-in vs cryptography back end vs the oracle of spec/crypto.py: e, aes_cmac (RFC 4493 vectors, message '
+            'lengths 0..80 and around 96/128/256), ah/c1/s1/f4/f5/f6/g2/h6/h7 under either back end, public key derivation, ECDH symmetry '
+            '(incl. scalars 1, 2, n-1, n-2), rejection of off-curve points by both back ends',
+            'bound': f'{n} seeded random inputs for e/aes_cmac, {n_sm} for the Security Manager functions, {len(pairs)} key pairs, {n_bad_pts} invalid points (seed {1000 + seed})',
+            'disagreements': [repr(b)[:300] for b in bad[:5]],
         }
     ]
     # reported as one obligation that is *not* a proof: it only fails when a disagreement was observed
     out['names']['C14/differential/bounded-agreement'] = {
         'kind': 'bounded', 'n': 1, 'proved': 0 if bad else 1, 'refuted': 1 if bad else 0, 'unknown': 0, 'vacuous': 0, 'disagree': 0,
         'time': 0.0, 'max_time': 0.0, 'backends': {'native-differential': 1}, 'abstracted': False, 'expect_sat': False, 'loc': 'differential',
-        'details': [], 'witnesses': [{'loc': 'differential', 'decisions': [], 'info': {}, 'solver': 'native', 'detail': repr(bad[:3]), 'replay': {'outcome': 'violated', 'confirms': True, 'failed': [repr(bad[:3])]}}] if bad else [],
+        'details': [], 'witnesses': [{'loc': 'differential', 'decisions': [], 'info': {}, 'solver': 'native', 'detail': repr(bad[:3])[:600], 'replay': {'outcome': 'violated', 'confirms': True, 'failed': [repr(bad[:3])[:600]]}}] if bad else [],
     }
     return out
 
 
-lemma('backend_differential', lambda: None, prop='C14', params={}, custom=differential)
+lemma('backend_differential', lambda: None, prop='C14', params={}, custom=differential, note='BOUNDED stand-in: seeded native differential run (see `bounded` in the evidence); never counted as proved')
